@@ -19,6 +19,9 @@ type NodeSpec struct {
 	// LighterDepth blocks below the initial tip, and never changes.
 	Chain        string `json:"chain"`
 	LighterDepth int    `json:"lighter_depth,omitempty"`
+	// Addr overrides the node's "ip:port" (default NodeAddr(id)); nodes may
+	// share an IP on different ports.
+	Addr string `json:"addr,omitempty"`
 }
 
 // Event is something the scenario does at a given time after Start.
@@ -150,7 +153,7 @@ func RunScenario(s *Scenario, work string) *Result {
 			ch = base.Fork(base.Tip()-d, d-1, int64(1000+i), 0.3)
 			valid = append(valid, ch)
 		}
-		n := nt.Add(ch, spec.B)
+		n := nt.AddAt(spec.Addr, ch, spec.B)
 		if spec.Chain != "lighter" {
 			mainNodes = append(mainNodes, n)
 		}
